@@ -121,6 +121,10 @@ package builder
 //@     invariant unchanged: forall i: int :: 0 <= i && i < len(builders) ==> builders[i] == old(builders[i])
 //@     invariant dups: duplicatesOf(selector, schemas, duplicateName, excludeOptions, builders, $i + 1, newBuilders) witness src(k) := ite($i >= 0 && k == len(newBuilders) - 1 && apply(selector, schemas, builders[$i]), $i, skolem("src", "last", k)) witness dk := ite(i == $i, len(newBuilders) - 1, skolem("dk", "last", i))
 //
+// initialize: the path of every constant assignment it adds is the one Builder.MakePath just resolved for
+// THIS builder's object and this statement's property path (at-call obligations on MakePath and on
+// ConstantAssignment; with
+// MakePath's own contract - every item is a field found by exact name - the added paths are well typed).
 // initialize / promote_options_to_constructor / add_option: builders that are not selected are left as
 // they were; a selected builder keeps its name, package, object, properties and factories - initialize only
 // adds constructor assignments, promote only adds constructor arguments and assignments, add_option only
@@ -129,6 +133,8 @@ package builder
 //@ func Initialize$1
 //@   property C17
 //@   requires selector != nil
+//@   at-call "ast.(*Builder).MakePath" resolved: $arg0.For == builders[i].For && $arg0.Package == builders[i].Package && $arg1 == builders && $arg2 == statement.PropertyPath
+//@   at-call "ast.ConstantAssignment" path: $arg0 == lastres("ast.(*Builder).MakePath", 0) && lastres("ast.(*Builder).MakePath", 1) == nil && lastarg("ast.(*Builder).MakePath", 2) == statement.PropertyPath && $arg1 == statement.Value
 //@   modifies builders[*], spare-capacity
 //@   ensures  same: result.1 == nil ==> result.0 == builders
 //@   ensures  others: forall i: int :: 0 <= i && i < len(builders) && !old(apply(selector, schemas, builders[i])) ==> builders[i] == old(builders[i])
